@@ -225,6 +225,7 @@ type scWorld struct {
 
 	res  *CaseResult
 	tags map[string]bool
+	schedErr string // suite c08: the scheduler could not drive the schedule of this run (wait timed out)
 	opi  int
 	op   string
 	// statistics for the non-triviality rules
